@@ -30,7 +30,8 @@ DictOrders == BOOLEAN                                   \* keys in ascending or 
 StreamKwEOLs == {<<10>>, <<13, 10>>}                    \* after the keyword stream (7.3.8.1)
 StreamEndEOLs == EOLs \cup {<<>>}                       \* before the keyword endstream
 EntryEOLs == {<<32, 10>>, <<32, 13>>, <<13, 10>>}       \* the last two bytes of a 20-byte cross-reference entry
-MemberHdrSeps == {<<32>>, <<10>>, <<13, 10>>}           \* after each "number offset" pair of an object stream
+MemberHdrSeps == {<<32>>, <<10>>, <<13, 10>>, <<0>>, <<9>>, <<12>>, <<13>>}   \* after each "number offset" pair of an object stream (any white-space of Table 1)
+MemberMidSeps == {<<32>>, <<0>>, <<9>>, <<12>>, <<32, 32>>}                   \* between the number and the offset
 ObjStmTails == {<<>>, <<10>>}                           \* after the last member of an object stream
 FinalEOLs == EOLs \cup {<<>>}                           \* after %%EOF
 
@@ -124,7 +125,7 @@ K == plan.k
 Cur == Doc.revs[plan.ri]
 UseComp(k) == k.xref \in {"stream1", "streamN"}
 \* knob values of a file without free-list chaining and without hybrid-reference sections
-PlainKnobs == [hybrid |-> {}, hycont |-> "stm", hyself |-> "stm", hymark |-> "free", flink |-> "zero"]
+PlainKnobs == [hybrid |-> {}, hycont |-> "stm", hyself |-> "stm", hymark |-> "free", flink |-> "zero", sfx |-> "", hexstyle |-> "upper", rlseg |-> 3]
 HybHere == plan.ri \in K.hybrid                       \* the current revision is a hybrid-reference section
 CompHere == UseComp(K) \/ HybHere                     \* ... its comp members live in object streams
 
@@ -192,7 +193,15 @@ RevStart ==
     /\ todo' = Rest /\ UNCHANGED <<out, outer, moffs>>
 
 \* Optional filter on structural streams (knob K.sfilter): "none" | "flate" (zlib, stored blocks) |
-\* "pred" (PNG predictor rows, then zlib).  Returns [data, dict additions].
+\* "pred" (PNG predictor rows, then zlib) | "other": K.sfx names one of the further legal forms -
+\*   "ahx" ASCIIHexDecode (digit style K.hexstyle), "a85" ASCII85Decode, "rl" RunLengthDecode (pieces of K.rlseg bytes),
+\*   "lzw" LZWDecode, "lzw0" LZWDecode with /EarlyChange 0, "flarr" [/FlateDecode] as a one-element array,
+\*   "ahxfl" [/ASCIIHexDecode /FlateDecode], "a85pred" [/ASCII85Decode /FlateDecode] with /DecodeParms [null <<PNG>>],
+\*   "lzwpred" LZWDecode with a PNG predictor, "tiff" / "tiff2" FlateDecode with /Predictor 2 (Colors 1 / 2),
+\*   "sub1" "sub2" "sub4" "sub16" FlateDecode with a PNG predictor whose rows are described with 1, 2, 4 or 16 bits
+\*   per component (same bytes per row; the left neighbour is one pixel, but at least one byte, away).
+\* Returns [data, dict additions].
+OtherFilters == {"ahx", "a85", "rl", "lzw", "lzw0", "flarr", "ahxfl", "a85pred", "lzwpred", "tiff", "tiff2", "sub1", "sub2", "sub4", "sub16"}
 FilterStruct(data, rowlen, d) ==
     IF K.sfilter = "none" \/ rowlen = 0 THEN [data |-> data, d |-> d]
     ELSE IF K.sfilter = "flate" THEN
@@ -205,10 +214,41 @@ FilterStruct(data, rowlen, d) ==
              mixB == <<0, 2, 0, 3, 0, 4, 1, 0>>
              fts == [r \in 1..nrows |-> IF K.pngft = 5 THEN mixA[((r - 1) % 5) + 1]
                                         ELSE IF K.pngft = 6 THEN mixB[((r - 1) % 8) + 1] ELSE K.pngft]
-             enc == Cod!PngEncode(padded, 1, rowlen, fts)
-             parms == ODict((NamePredictor :> NatObj(10 + (IF K.pngft >= 5 THEN 5 ELSE K.pngft))) @@ (NameColumns :> NatObj(rowlen)))
-         IN [data |-> Cod!ZStored(enc, K.zblock),
-             d |-> MapPut(MapPut(d, NameFilter, OName(NameFlateDecode)), NameDecodeParms, parms)]
+             predNo == NatObj(10 + (IF K.pngft >= 5 THEN 5 ELSE K.pngft))
+             pngParms(extra) == ODict((NamePredictor :> predNo) @@ extra)
+             put(flt, parms) == IF parms = ONull THEN MapPut(d, NameFilter, flt) ELSE MapPut(MapPut(d, NameFilter, flt), NameDecodeParms, parms)
+             N(nm) == OName(nm)
+             x == IF K.sfilter = "pred" THEN "pred" ELSE K.sfx
+         IN CASE x = "pred" ->
+                  [data |-> Cod!ZStored(Cod!PngEncode(padded, 1, rowlen, fts), K.zblock),
+                   d |-> put(N(NameFlateDecode), pngParms(NameColumns :> NatObj(rowlen)))]
+              [] x = "ahx" -> [data |-> CodX!AHxEncode(data, K.hexstyle), d |-> put(N(NameASCIIHexDecode), ONull)]
+              [] x = "a85" -> [data |-> Cod!A85Encode(data, K.hexstyle # "lower"), d |-> put(N(NameASCII85Decode), ONull)]
+              [] x = "rl" -> [data |-> CodX!RLEncode(data, K.rlseg, K.hexstyle # "noeod"), d |-> put(N(NameRunLengthDecode), ONull)]
+              [] x = "lzw" -> [data |-> Cod!LzwEncode(data, 1, 4094), d |-> put(N(NameLZWDecode), ONull)]
+              [] x = "lzw0" -> [data |-> Cod!LzwEncode(data, 0, 300), d |-> put(N(NameLZWDecode), ODict(NameEarlyChange :> NatObj(0)))]
+              [] x = "flarr" -> [data |-> Cod!ZStored(data, K.zblock), d |-> put(OArr(<<N(NameFlateDecode)>>), ONull)]
+              [] x = "ahxfl" -> [data |-> CodX!AHxEncode(Cod!ZStored(data, K.zblock), K.hexstyle),
+                                 d |-> put(OArr(<<N(NameASCIIHexDecode), N(NameFlateDecode)>>), ONull)]
+              [] x = "a85pred" -> [data |-> Cod!A85Encode(Cod!ZStored(Cod!PngEncode(padded, 1, rowlen, fts), K.zblock), TRUE),
+                                   d |-> put(OArr(<<N(NameASCII85Decode), N(NameFlateDecode)>>),
+                                             OArr(<<ONull, pngParms(NameColumns :> NatObj(rowlen))>>))]
+              [] x = "lzwpred" -> [data |-> Cod!LzwEncode(Cod!PngEncode(padded, 1, rowlen, fts), 1, 4094),
+                                   d |-> put(N(NameLZWDecode), pngParms(NameColumns :> NatObj(rowlen)))]
+              [] x = "tiff" -> [data |-> Cod!ZStored(CodX!TiffEncode(data, 1, rowlen), K.zblock),
+                                d |-> put(N(NameFlateDecode), ODict((NamePredictor :> NatObj(2)) @@ (NameColumns :> NatObj(rowlen))))]
+              [] x = "tiff2" /\ rowlen % 2 = 0 ->
+                    [data |-> Cod!ZStored(CodX!TiffEncode(data, 2, rowlen), K.zblock),
+                     d |-> put(N(NameFlateDecode), ODict((NamePredictor :> NatObj(2)) @@ (NameColumns :> NatObj(rowlen \div 2)) @@ (NameColors :> NatObj(2))))]
+              [] x \in {"sub1", "sub2", "sub4"} ->
+                    LET bpc == IF x = "sub1" THEN 1 ELSE IF x = "sub2" THEN 2 ELSE 4
+                    IN [data |-> Cod!ZStored(Cod!PngEncode(padded, 1, rowlen, fts), K.zblock),
+                        d |-> put(N(NameFlateDecode), pngParms((NameColumns :> NatObj(rowlen * (8 \div bpc))) @@ (NameBitsPerComponent :> NatObj(bpc))))]
+              [] x = "sub16" /\ rowlen % 2 = 0 ->
+                    [data |-> Cod!ZStored(Cod!PngEncode(padded, 2, rowlen, fts), K.zblock),
+                     d |-> put(N(NameFlateDecode), pngParms((NameColumns :> NatObj(rowlen \div 2)) @@ (NameBitsPerComponent :> NatObj(16))))]
+              \* forms that do not fit the row length fall back to plain FlateDecode
+              [] OTHER -> [data |-> Cod!ZStored(data, K.zblock), d |-> MapPut(d, NameFilter, OName(NameFlateDecode))]
 
 -----------------------------------------------------------------------------
 (* Object streams (7.5.7): the members are spelled by the Producer itself into a separate buffer *)
@@ -232,8 +272,8 @@ CMember ==
 \* the order in which the containers are processed.
 CEnd ==
     /\ todo # <<>> /\ Top1.w = "cend"
-    /\ \E hs \in MemberHdrSeps, tail \in ObjStmTails :
-          LET header == Concat([i \in 1..Len(moffs) |-> AsciiDigits(moffs[i].num) \o <<32>> \o AsciiDigits(moffs[i].off) \o hs])
+    /\ \E hs \in MemberHdrSeps, ms \in MemberMidSeps, tail \in ObjStmTails :
+          LET header == Concat([i \in 1..Len(moffs) |-> AsciiDigits(moffs[i].num) \o ms \o AsciiDigits(moffs[i].off) \o hs])
               content == header \o out \o tail
               d == (NameType :> OName(NameObjStm)) @@ (NameN :> NatObj(Len(moffs))) @@ (NameFirst :> NatObj(Len(header)))
               fl == FilterStruct(content, K.crow, d)
